@@ -7,9 +7,11 @@ import (
 	"fmt"
 	"sort"
 	"strings"
+	"time"
 
 	"github.com/vipnode/vipnode/v2/internal/verif/vh"
 	"github.com/vipnode/vipnode/v2/internal/verif/vsched"
+	"github.com/vipnode/vipnode/v2/pool"
 	"github.com/vipnode/vipnode/v2/pool/store"
 )
 
@@ -198,7 +200,8 @@ func c09Race(scen string, bound int) vh.Unit {
 		var sub *vh.U
 		vh.RunDFS(u, vh.DFSSpec{
 			Name: name, Bound: bound,
-			Run:  vsched.Options{YieldFiles: []string{"service.go"}, Drain: true},
+			// three threads: delay-bounded (the free switches of preemption bounding explode)
+			Run:  vsched.Options{YieldFiles: []string{"service.go"}, Drain: true, Delay: len(threads) > 2},
 			Body: body,
 			Obs: func(s *vsched.Sched) string {
 				return fmt.Sprint(w.pw.Pool.NumRemotes(), w.pw.CallLog())
@@ -237,8 +240,112 @@ func init() {
 				us = append(us, c09BFS(depth, s, n))
 			}
 			us = append(us, c09Race("close-old-vs-reconnect", bound+1), c09Race("two-closes-one-reconnect", bound+1))
-			us = append(us, c09Race("close-vs-peer", bound), c09Race("close-vs-peer-vs-connect", bound))
+			us = append(us, c09Race("close-vs-peer", bound+1), c09Race("close-vs-peer-vs-connect", bound+1))
+			us = append(us, c09Wire())
 			return us
 		},
 	})
+}
+
+// wire level: the real binary. A host's registration lives exactly as long as its WebSocket:
+// server.go must hand the connection that ended to CloseRemote.
+func c09Wire() vh.Unit {
+	return vh.Unit{Name: "wire/connection-lifecycle", Run: func(u *vh.U) {
+		p, err := vh.StartPool()
+		if err != nil {
+			u.R.Infra = err.Error()
+			return
+		}
+		defer p.Stop()
+		ids := vh.Identities()
+		host, client := ids[1], ids[0]
+		dialHost := func() *vh.HostConn {
+			ws, err := p.DialWS()
+			if err != nil {
+				return nil
+			}
+			return vh.NewHostConn(ws)
+		}
+		connectHost := func(h *vh.HostConn) string {
+			c := vh.NewCall("vipnode_connect", host, vh.WireNonce(), pool2ConnectHost())
+			r, err := h.Call(vh.RequestText(c, 1), 5*time.Second)
+			if err != nil {
+				return "error: " + err.Error()
+			}
+			return r
+		}
+		cws, err := p.DialWS()
+		if err != nil {
+			u.Violate("wire/websocket-dial-failed", err.Error(), nil)
+			return
+		}
+		defer cws.Close()
+		cc := vh.NewCall("vipnode_connect", client, vh.WireNonce(), vh.DefaultParam("vipnode_connect", ""))
+		if r, err := cws.Call(vh.RequestText(cc, 1), 5*time.Second); err != nil || strings.Contains(r, `"error"`) {
+			u.Violate("wire/client-connect-failed", fmt.Sprintf("%s %v", r, err), nil)
+			return
+		}
+		askPeers := func() string {
+			c := vh.NewCall("vipnode_peer", client, vh.WireNonce(), vh.DefaultParam("vipnode_peer", ""))
+			r, err := cws.Call(vh.RequestText(c, 2), 8*time.Second)
+			if err != nil {
+				return "error: " + err.Error()
+			}
+			return r
+		}
+		step := func(what string) {
+			u.R.Evaluations++
+			u.R.States++
+			u.R.Transitions++
+			u.R.Traces++
+			u.Observe(what)
+		}
+		// 1. host registers on connection 1: a peer request reaches it
+		h1 := dialHost()
+		if r := connectHost(h1); strings.Contains(r, "error") {
+			u.Violate("wire/host-connect-failed", r, nil)
+			return
+		}
+		r := askPeers()
+		step("peer-after-connect")
+		if !strings.Contains(r, host.NodeID) || len(h1.ReverseCalls()) != 1 {
+			u.Violate("wire/live-host-not-called", fmt.Sprintf("peer reply %s; reverse calls on the host connection: %v", r, h1.ReverseCalls()), nil)
+			return
+		}
+		// 2. host reconnects on connection 2, then connection 1 closes: connection 2 must stay registered
+		h2 := dialHost()
+		if r := connectHost(h2); strings.Contains(r, "error") {
+			u.Violate("wire/host-reconnect-failed", r, nil)
+			return
+		}
+		h1.WS.Close()
+		time.Sleep(300 * time.Millisecond)
+		r = askPeers()
+		step("peer-after-old-connection-closed")
+		if !strings.Contains(r, host.NodeID) || len(h2.ReverseCalls()) != 1 {
+			u.Violate("wire/closing-old-connection-unregistered-new-one", fmt.Sprintf("peer reply %s; reverse calls on the new connection: %v", r, h2.ReverseCalls()), nil)
+			return
+		}
+		// 3. connection 2 closes: later requests must find no connected host (eventually: the serve
+		// loop notices the close asynchronously)
+		h2.WS.Close()
+		ok := false
+		var last string
+		for i := 0; i < 25 && !ok; i++ {
+			time.Sleep(200 * time.Millisecond)
+			last = askPeers()
+			ok = strings.Contains(last, "no available host nodes") || strings.Contains(last, "no host nodes")
+		}
+		step("peer-after-last-connection-closed")
+		if !ok {
+			u.Violate("wire/closed-host-still-registered", fmt.Sprintf("5 s after the host's last connection closed a peer request still answers: %s", last), nil)
+		}
+		u.Sample("real binary: host on ws1 -> peer request -> host reconnects on ws2 -> ws1 closes -> peer request -> ws2 closes -> peer request")
+	}}
+}
+
+func pool2ConnectHost() interface{} {
+	c := vh.DefaultParam("vipnode_connect", "").(pool.ConnectRequest)
+	c.NodeInfo.IsFullNode = true
+	return c
 }
